@@ -30,7 +30,7 @@ func refFold(leaf, path []byte, index uint32, depth int) []byte {
 func VH_C04_merkle(h *vrt.H) {
 	maxd := 6
 	if h.Thorough() {
-		maxd = 16
+		maxd = 10
 	}
 	d := h.Choose("depth", 0, maxd)
 	leaf := h.Bytes("leaf", 32)
